@@ -182,6 +182,17 @@ def one(rec, hub, seed, tier, i):
     if not (isinstance(y.values, np.ndarray) and y.values.shape == values.shape and np.array_equal(y.values, values)):
         bad = np.argwhere(y.values != values)[:1].tolist() if isinstance(y.values, np.ndarray) and y.values.shape == values.shape else None
         rec.violation(MF, f"from_df:entry-under-wrong-label:{layout}:{header}", {"info": {k_: v for k_, v in info.items() if k_ != "dimcol_of"}, "first_bad_index": bad, "csv": bool(csv)})
+    if i % 5 == 1:
+        # importing into an existing array that holds integers / single precision: the imported values arrive unchanged
+        tgt = fd.FlodymArray.full(dims, 0) if i % 2 else fd.FlodymArray(dims=dims, values=np.zeros(dims.shape, dtype=np.float32))
+        rec.event(MF, sig=f"into-existing|{tgt.values.dtype}|nd={k}", cls=f"set_values_from_df|target dtype {tgt.values.dtype}")
+        try:
+            tgt.set_values_from_df(df)
+            if not np.array_equal(np.asarray(tgt.values, dtype=float), values):
+                rec.violation(MF, "set_values_from_df:values-altered-by-the-target's-previous-dtype", {"target_dtype_before": "int" if i % 2 else "float32", "dtype_after": str(tgt.values.dtype)})
+        except Exception as e:
+            if not finding_mech(info, e):
+                rec.violation(MF, "set_values_from_df:raised-on-a-supported-layout", {"exc": repr(e)[:300]})
     # to_df -> from_df in every layout of to_df (judged by the to_df oracle and here)
     if i % 3 == 0:
         # mixed signs and exact zeros for the export layouts (sparse must list exactly the non-zero entries)
@@ -197,6 +208,18 @@ def one(rec, hub, seed, tier, i):
 
         x = fd.FlodymArray(dims=dims, values=relayout(v2.copy(), rng))  # C, Fortran or strided memory layout
         values = v2
+        if k >= 1 and i % 6 == 0:
+            xr = fd.FlodymArray(dims=dims, values=values.copy())
+            try:
+                xr.to_df()
+                d0 = dims[0]
+                its_ = list(d0.items)
+                if len(its_) > 1:
+                    xr.dims.replace(d0.letter, fd.Dimension(letter=d0.letter.upper(), name=d0.name, items=its_[::-1], **({"dtype": d0.dtype} if d0.dtype is not None else {})), inplace=True)
+                    xr.to_df()  # judged by the to_df oracle against the labels the array carries NOW
+                    xr.to_df(index=False)
+            except Exception:
+                pass
         for kw in (dict(), dict(index=False), dict(sparse=True), dict(index=False, sparse=True)) + tuple(dict(dim_to_columns=(s[0] if rng.random() < 0.5 else s[1]), index=bool(rng.integers(0, 2))) for s in spec if len(s[2]) > 1 and (s[3] is not None or isinstance(s[2][0], str))):
             rec.event(MR, sig=f"rt|{k}|{sorted(kw.items())}|{types}", cls=f"roundtrip|{'wide' if 'dim_to_columns' in kw else 'long'}")
             try:
